@@ -42,6 +42,10 @@ func (q *responseBuilder) TableStart(meta FluxTableMetaData, firstRow []string) 
 	if q.Err != nil {
 		return
 	}
+	if len(firstRow) < len(q.colNames) {
+		q.Err = fmt.Errorf("flux query result: row has %d values for %d columns", len(firstRow), len(q.colNames))
+		return
+	}
 	q.seriesBuf = &imodels.Row{}
 	tags := make(models.Tags, len(firstRow))
 	// add the tags from the row
@@ -79,6 +83,10 @@ func (q *responseBuilder) GroupStart(names []string, types []string, groups []bo
 	if q.Err != nil {
 		return
 	}
+	if len(types) < len(names) || len(groups) < len(names) {
+		q.Err = fmt.Errorf("flux query result: %d datatype and %d group annotations for %d columns", len(types), len(groups), len(names))
+		return
+	}
 	q.colNames = q.colNames[:0]
 	// replace "_time" that flux uses with "time"
 	for i := range names {
@@ -108,6 +116,14 @@ func (q *responseBuilder) GroupStart(names []string, types []string, groups []bo
 
 func (q *responseBuilder) DataRow(meta FluxTableMetaData, row []string) {
 	if q.Err != nil {
+		return
+	}
+	if q.seriesBuf == nil {
+		q.Err = errors.New("flux query result: data row without a table header")
+		return
+	}
+	if len(row) < len(q.colNames) || len(meta.DataTypes) < len(q.colNames) {
+		q.Err = fmt.Errorf("flux query result: row has %d values and %d datatypes for %d columns", len(row), len(meta.DataTypes), len(q.colNames))
 		return
 	}
 	// Add the field values for the row
